@@ -607,6 +607,12 @@ class Session(BaseSession):
         self.variables.set("collation_connection", collation_name)
 
     def _set_transaction(self, item: exp.SetItem) -> None:
+        if item.args.get("global_") or item.args.get("global"):
+            # Like every other GLOBAL assignment: not the session's to change
+            raise MysqlError(
+                "Cannot SET TRANSACTION with scope GLOBAL",
+                code=ErrorCode.NOT_SUPPORTED_YET,
+            )
         characteristics = [e.name.upper() for e in item.expressions]
         for characteristic in characteristics:
             variable, value = TRANSACTION_CHARACTERISTICS[characteristic]
